@@ -238,6 +238,44 @@ theorem closure_complete (succ : Nat → List Nat) (n : Nat) (roots : List Nat) 
   | step _ hc hcn ih => exact (closure_closed succ n roots).2 _ ih _ hc hcn
 
 
+/-- **soundness of the worklist**: whatever is processed is a node reachable from a root. -/
+theorem closureLoop_sound (succ : Nat → List Nat) (n : Nat) (roots : List Nat) :
+    ∀ (fuel : Nat) (todo rem done : List Nat),
+      (∀ x ∈ todo, x < n ∧ ∃ r ∈ roots, ReachN succ n r x) →
+      (∀ x ∈ done, x < n ∧ ∃ r ∈ roots, ReachN succ n r x) →
+      (∀ x ∈ rem, x < n) →
+      ∀ x ∈ closureLoop succ fuel todo rem done, x < n ∧ ∃ r ∈ roots, ReachN succ n r x := by
+  intro fuel
+  induction fuel with
+  | zero => intro todo rem done _ hd _ x hx; exact hd x (by simpa [closureLoop] using hx)
+  | succ fuel ih =>
+    intro todo rem done ht hd hr x hx
+    cases todo with
+    | nil => exact hd x (by simpa [closureLoop] using hx)
+    | cons i todo =>
+      simp only [closureLoop] at hx
+      have hi := ht i List.mem_cons_self
+      refine ih _ _ _ ?_ ?_ ?_ x hx
+      · intro y hy
+        rcases enq_sub _ _ _ hy with h | ⟨h1, h2⟩
+        · exact ht y (List.mem_cons_of_mem _ h)
+        · have hyn : y < n := hr y (List.mem_of_mem_erase h2)
+          obtain ⟨r, hr', hreach⟩ := hi.2
+          exact ⟨hyn, r, hr', .step hreach h1 hyn⟩
+      · intro y hy
+        rcases List.mem_append.mp hy with h | h
+        · exact hd y h
+        · simp at h; subst h; exact hi
+      · intro y hy; exact hr y (List.mem_of_mem_erase hy)
+
+theorem closure_sound (succ : Nat → List Nat) (n : Nat) (roots : List Nat) {c : Nat}
+    (h : c ∈ closure succ n roots) : c < n ∧ ∃ r ∈ roots, ReachN succ n r c := by
+  refine closureLoop_sound succ n roots n _ _ [] ?_ (by simp) (by intro x hx; exact List.mem_range.mp hx) c h
+  intro x hx
+  rcases enq_sub _ _ _ hx with h | ⟨h1, h2⟩
+  · cases h
+  · exact ⟨List.mem_range.mp h2, x, h1, .refl x⟩
+
 /-! ## DFS cycle search -/
 
 /-- a path with at least one edge in the graph given by a successor function. -/
@@ -488,5 +526,183 @@ theorem findCycles_complete (adj : List (List Nat)) (h : HasCycle adj) : findCyc
     · intro hmem
       exact hlt (List.mem_range.mp (post.unvis.subset hmem))
   · rw [post.stack]; simp
+
+
+/-! ## soundness of the cycle search: every reported cycle is one -/
+
+/-- consecutive elements are edges -/
+def Chain (succ : Nat → List Nat) : List Nat → Prop
+  | [] => True
+  | a :: l => (∀ b, l.head? = some b → b ∈ succ a) ∧ Chain succ l
+
+/-- a closed walk: non-empty, and followed by its first node it is a chain
+    (so the last node points back at the first). -/
+def IsCycle (adj : List (List Nat)) (c : List Nat) : Prop :=
+  ∃ a, c.head? = some a ∧ Chain (succOf adj) (c ++ [a])
+
+theorem chain_of_append {succ : Nat → List Nat} : ∀ (t l : List Nat), Chain succ (t ++ l) → Chain succ l := by
+  intro t
+  induction t with
+  | nil => intro l h; exact h
+  | cons x t ih => intro l h; exact ih l h.2
+
+theorem chain_snoc_edge {succ : Nat → List Nat} {v w : Nat} (hw : w ∈ succ v) :
+    ∀ (l : List Nat), Chain succ (l ++ [v]) → Chain succ (l ++ [v] ++ [w]) := by
+  intro l
+  induction l with
+  | nil =>
+    intro _
+    show (∀ b, [w].head? = some b → b ∈ succ v) ∧ Chain succ [w]
+    refine ⟨?_, ?_, trivial⟩
+    · intro b hb; simp at hb; subst hb; exact hw
+    · intro b hb; simp at hb
+  | cons a l ih =>
+    intro h
+    have h' : (∀ b, (l ++ [v]).head? = some b → b ∈ succ a) ∧ Chain succ (l ++ [v]) := h
+    show (∀ b, (l ++ [v] ++ [w]).head? = some b → b ∈ succ a) ∧ Chain succ (l ++ [v] ++ [w])
+    refine ⟨?_, ih h'.2⟩
+    intro b hb
+    apply h'.1 b
+    cases l with
+    | nil => simpa using hb
+    | cons x l => simpa using hb
+
+theorem head?_dropWhile_ne {w : Nat} : ∀ (l : List Nat), w ∈ l → (l.dropWhile (· != w)).head? = some w := by
+  intro l
+  induction l with
+  | nil => intro h; cases h
+  | cons x l ih =>
+    intro h
+    rw [List.dropWhile_cons]
+    by_cases e : x = w
+    · subst e; simp
+    · have : (x != w) = true := by simp [e]
+      rw [if_pos this]
+      rcases List.mem_cons.mp h with h | h
+      · exact absurd h.symm e
+      · exact ih h
+
+theorem chain_to_path {succ : Nat → List Nat} : ∀ (l : List Nat) (a b : Nat),
+    Chain succ (a :: (l ++ [b])) → PathS succ a b := by
+  intro l
+  induction l with
+  | nil =>
+    intro a b h
+    exact .single (h.1 b (by simp))
+  | cons x l ih =>
+    intro a b h
+    exact .cons (h.1 x (by simp)) (ih x b h.2)
+
+/-- a reported cycle gives a node that reaches itself. -/
+theorem IsCycle.onCycle {adj : List (List Nat)} {c : List Nat} (h : IsCycle adj c) : ∃ a, OnCycle adj a := by
+  obtain ⟨a, ha, hch⟩ := h
+  cases c with
+  | nil => simp at ha
+  | cons x l =>
+    simp at ha
+    subst ha
+    exact ⟨x, chain_to_path l x x hch⟩
+
+/-- the stack is a chain and everything reported so far is a cycle -/
+def SInv (adj : List (List Nat)) (st : DfsState) : Prop :=
+  ∀ c ∈ st.cycles, IsCycle adj c
+
+theorem dfsStep_stack (adj : List (List Nat)) (fuel : Nat)
+    (ih : ∀ v st, (dfs adj fuel v st).stack = st.stack) (st : DfsState) (w : Nat) :
+    (dfsStep adj fuel st w).stack = st.stack := by
+  unfold dfsStep
+  split
+  · exact ih w st
+  · split <;> rfl
+
+theorem fold_stack (adj : List (List Nat)) (fuel : Nat)
+    (ih : ∀ v st, (dfs adj fuel v st).stack = st.stack) :
+    ∀ (ws : List Nat) (st : DfsState), (ws.foldl (dfsStep adj fuel) st).stack = st.stack := by
+  intro ws
+  induction ws with
+  | nil => intro st; rfl
+  | cons w ws ihw =>
+    intro st
+    simp only [List.foldl_cons]
+    rw [ihw, dfsStep_stack adj fuel ih]
+
+/-- `dfs` leaves the stack as it found it. -/
+theorem dfs_stack (adj : List (List Nat)) : ∀ (fuel v : Nat) (st : DfsState),
+    (dfs adj fuel v st).stack = st.stack := by
+  intro fuel
+  induction fuel with
+  | zero => intro v st; rfl
+  | succ fuel ih =>
+    intro v st
+    rw [dfs_succ_eq]
+    show (((succOf adj v).foldl (dfsStep adj fuel) _).stack).dropLast = st.stack
+    rw [fold_stack adj fuel ih]
+    exact List.dropLast_concat
+
+theorem fold_sound (adj : List (List Nat)) (fuel v : Nat)
+    (ihd : ∀ w st, Chain (succOf adj) (st.stack ++ [w]) → SInv adj st → SInv adj (dfs adj fuel w st)) :
+    ∀ (ws : List Nat) (st0 : DfsState) (S : List Nat), (∀ w ∈ ws, w ∈ succOf adj v) →
+      st0.stack = S ++ [v] → Chain (succOf adj) (S ++ [v]) → SInv adj st0 →
+      SInv adj (ws.foldl (dfsStep adj fuel) st0) := by
+  intro ws
+  induction ws with
+  | nil => intro st0 S _ _ _ h; exact h
+  | cons w ws ih =>
+    intro st0 S hws hst hch hinv
+    simp only [List.foldl_cons]
+    have hw : w ∈ succOf adj v := hws w List.mem_cons_self
+    have hch' : Chain (succOf adj) (st0.stack ++ [w]) := by rw [hst]; exact chain_snoc_edge hw S hch
+    have hstep : SInv adj (dfsStep adj fuel st0 w) := by
+      unfold dfsStep
+      split
+      · exact ihd w st0 hch' hinv
+      · split
+        · rename_i _ hmem
+          intro c hc
+          simp only [List.mem_append, List.mem_singleton] at hc
+          rcases hc with hc | hc
+          · exact hinv c hc
+          · subst hc
+            have hwm : w ∈ st0.stack := List.contains_iff_mem.mp hmem
+            refine ⟨w, head?_dropWhile_ne _ hwm, ?_⟩
+            obtain ⟨t, ht⟩ := List.dropWhile_suffix (l := st0.stack) (· != w)
+            apply chain_of_append t
+            rw [← List.append_assoc, ht]
+            exact hch'
+        · exact hinv
+    have hstack : (dfsStep adj fuel st0 w).stack = S ++ [v] := by
+      rw [dfsStep_stack adj fuel (dfs_stack adj fuel)]; exact hst
+    exact ih _ S (fun x hx => hws x (List.mem_cons_of_mem _ hx)) hstack hch hstep
+
+theorem dfs_sound (adj : List (List Nat)) : ∀ (fuel v : Nat) (st : DfsState),
+    Chain (succOf adj) (st.stack ++ [v]) → SInv adj st → SInv adj (dfs adj fuel v st) := by
+  intro fuel
+  induction fuel with
+  | zero => intro v st _ h; exact h
+  | succ fuel ih =>
+    intro v st hch hinv
+    rw [dfs_succ_eq]
+    exact fold_sound adj fuel v ih (succOf adj v) _ st.stack (fun _ h => h) rfl hch hinv
+
+/-- **soundness of the cycle search**: every list `find_cycles` returns is a closed walk of the graph. -/
+theorem findCycles_sound (adj : List (List Nat)) : ∀ c ∈ findCycles adj, IsCycle adj c := by
+  unfold findCycles
+  rw [findCyclesState_eq]
+  suffices h : ∀ (vs : List Nat) (st : DfsState), st.stack = [] → SInv adj st →
+      SInv adj (vs.foldl (topStep adj) st) ∧ (vs.foldl (topStep adj) st).stack = [] from
+    (h _ _ rfl (by intro c hc; cases hc)).1
+  intro vs
+  induction vs with
+  | nil => intro st hs h; exact ⟨h, hs⟩
+  | cons v vs ih =>
+    intro st hs hinv
+    simp only [List.foldl_cons]
+    have h1 : SInv adj (topStep adj st v) ∧ (topStep adj st v).stack = [] := by
+      unfold topStep
+      split
+      · refine ⟨dfs_sound adj _ v st ?_ hinv, by rw [dfs_stack]; exact hs⟩
+        rw [hs]; exact ⟨by simp, trivial⟩
+      · exact ⟨hinv, hs⟩
+    exact ih _ h1.2 h1.1
 
 end Pxv.Rules
